@@ -407,3 +407,29 @@ def run(repo: Repo, rep: Report) -> None:  # noqa: F811
             if is_lang(e):
                 rep.ob("C05.f-empty-xml-lang-is-a-value", rx, q, "%s [in %s: %s]" % (norm(e), kind, norm(getattr(owner, "test", owner))[:60]), False,
                        "%s is None or a string; xml:lang=\"\" (empty string, falsy) is an explicit `no language` and must not take the `attribute absent` path: literals below would inherit the ancestor's language tag" % norm(e), node=e)
+
+
+_run_base2 = run
+
+
+def run(repo: Repo, rep: Report) -> None:  # noqa: F811
+    _run_base2(repo, rep)
+    rx = repo.mod("rdflib.plugins.serializers.rdfxml")
+    rep.rule("C05.g-prettyxml-declares-the-prefix-it-writes",
+             "PrettyXMLSerializer writes the names of the RDF vocabulary (rdf:RDF, rdf:Description, rdf:about ...) through XMLWriter.qname, i.e. with the prefix the graph's namespace "
+             "manager has or generates for the RDF namespace (or an extra_ns entry given to the writer). The xmlns declaration for that namespace must use the same source; a "
+             "declaration under the hard-coded prefix `rdf` is only right while the graph binds `rdf` to the RDF namespace (Graph(bind_namespaces='none') writes <ns2:RDF xmlns:rdf=...>: unbound prefix)", floor=1)
+    sf = rx.func("PrettyXMLSerializer.serialize")
+    xw = [c for c in own_nodes(sf) if isinstance(c, ast.Call) and norm(c.func) == "XMLWriter"]
+    extra = any(k.arg == "extra_ns" and isinstance(k.value, ast.Dict) and any(isinstance(x, ast.Constant) and x.value == "rdf" for x in k.value.keys) for c in xw for k in c.keywords)
+    hard = [st for st in own_nodes(sf) if isinstance(st, ast.Assign) and isinstance(st.targets[0], ast.Subscript) and isinstance(st.targets[0].slice, ast.Constant) and st.targets[0].slice.value == "rdf"]
+    computed = [st for st in own_nodes(sf) if isinstance(st, ast.Assign) and isinstance(st.value, ast.Call) and norm(st.value.func).endswith("compute_qname_strict") and st.value.args and "RDFVOC" in norm(st.value.args[0])]
+    if hard:
+        for st in hard:
+            rep.ob("C05.g-prettyxml-declares-the-prefix-it-writes", rx, "PrettyXMLSerializer.serialize", st, extra,
+                   "the writer is told to use `rdf` for that namespace (extra_ns)" if extra else
+                   "the RDF namespace is declared as xmlns:rdf whatever prefix the writer will put on rdf:RDF / rdf:about: a graph that does not bind `rdf` to it gets element names with an undeclared prefix (not namespace-well-formed XML)", node=st)
+    else:
+        ok = bool(computed) or extra
+        rep.ob("C05.g-prettyxml-declares-the-prefix-it-writes", rx, "PrettyXMLSerializer.serialize", computed[0] if computed else "declaration of the RDF namespace", ok,
+               "declared under the prefix the namespace manager gives it" if ok else "no declaration of the RDF namespace found", node=computed[0] if computed else sf)
